@@ -428,21 +428,34 @@ pub fn run_property(p: &dyn Property, tier: Tier, seed: u64) -> RunResult {
                         Ok(()) => None,
                         Err(TestError::Fail(_, (a, b, c))) => {
                             let s: Streams = [a, b, c];
-                            let out = p.run(&s);
-                            match &out.verdict {
-                                Verdict::Fail { key, msg } => Some(Failure {
-                                    streams: s,
-                                    key: key.clone(),
-                                    msg: msg.clone(),
-                                    render: out.render_json(),
-                                }),
-                                _ => Some(Failure {
-                                    streams: s,
-                                    key: "flaky".into(),
-                                    msg: "minimal case did not fail again when re-run".into(),
-                                    render: out.render_json(),
-                                }),
+                            // re-run the minimal case to render it; a failure that depends on
+                            // something outside the case (e.g. hash-map order inside the crate)
+                            // may need several attempts
+                            let mut found = None;
+                            let mut last = p.run(&s);
+                            for attempt in 0..40 {
+                                if let Verdict::Fail { key, msg } = &last.verdict {
+                                    let note = if attempt > 0 {
+                                        format!("\n(non-deterministic: reproduced on attempt {} of re-running the same case)", attempt + 1)
+                                    } else {
+                                        String::new()
+                                    };
+                                    found = Some(Failure {
+                                        streams: s.clone(),
+                                        key: key.clone(),
+                                        msg: format!("{msg}{note}"),
+                                        render: last.render_json(),
+                                    });
+                                    break;
+                                }
+                                last = p.run(&s);
                             }
+                            Some(found.unwrap_or(Failure {
+                                streams: s,
+                                key: "flaky".into(),
+                                msg: "minimal case did not fail again in 40 re-runs".into(),
+                                render: last.render_json(),
+                            }))
                         }
                         Err(TestError::Abort(r)) => Some(Failure {
                             streams: [vec![], vec![], vec![]],
